@@ -1,7 +1,7 @@
 from vlib.core import *
 
 META = dict(
-    level_text="Proved for all integers n, nev, ncv: each solver family's constructor guard accepts exactly the documented range and every rejection is std::invalid_argument (c12_herm_iff for both HermEigsBase overloads, c12_gen_iff, c12_jd_iff, c12_svd_iff), the stored ncv equals the argument when accepted (c12_*_ncv), buckling/Cayley reject exactly sigma = 0 (c12_sigma, any ordered field), the accepted selection/sorting rule sets are the documented ones (c12_rules), and no constructor in namespace Spectra holds a raw `new` result across a later throwing action, so a rejected constructor leaks nothing under the C++ unwinding model (c12_ctor_unwind, c12_no_raw_no_leak, c12_no_leak). All guard functions and the raw-new footprint are regenerated from the headers on every run. The tie to the running code is the exhaustive sweep the property names: every solver class x n in 1..12 x (nev,ncv) in [-2,n+3]^2, all wrappers x all non-square shapes <= 4x4, sigma = 0, zero start vector, all nine rules, with a live-heap-block counter.",
+    level_text="Proved for all integers n, nev, ncv: each solver family's constructor guard accepts exactly the documented range and every rejection is std::invalid_argument (c12_herm_iff for both HermEigsBase overloads, c12_gen_iff, c12_jd_iff, c12_svd_iff), the stored ncv equals the argument when accepted (c12_*_ncv), buckling/Cayley reject exactly sigma = 0 (c12_sigma, any ordered field), the accepted selection/sorting rule sets are the documented ones (c12_rules), every matrix-operation wrapper of MatOp/ accepts exactly its documented shapes for all integer rows/cols and rejects the rest with invalid_argument (c12_wrap_<Class> for the 13 square-only wrappers and the 2 general products, c12_wrap_SymShiftInvert: accepted iff A.rows = A.cols = B.rows = B.cols, with size() translated as rows*cols), a generalized solver on two operators of one common size n validates (nev, ncv) against that n in every GEigsMode (c12_geigs_iff_partial; partial: operators of different sizes are NOT rejected by the code, finding F22), and no constructor in namespace Spectra holds a raw `new` result across a later throwing action, so a rejected constructor leaks nothing under the C++ unwinding model (c12_ctor_unwind, c12_no_raw_no_leak, c12_no_leak). All guard functions (solver constructors, every MatOp wrapper constructor, the SymGEigs*Op adapters and their rows()) and the raw-new footprint are regenerated from the headers on every run. The tie to the running code is the exhaustive sweep the property names: every solver class x n in 1..12 x (nev,ncv) in [-2,n+3]^2, every wrapper constructor x every shape rows, cols in 0..5 (SymShiftInvert: the shapes of A and B independently, all four dense/sparse pairings) x Uplo/storage-order/scalar variants, generalized solvers x every pair of operator sizes 1..6 x every mode, general solvers over non-square operators, sigma = 0, zero start vector, all nine rules, with a live-heap-block counter.",
     note="Lean kernel + standard axioms; translator; the C++ object-lifetime rule for a throwing constructor is modelled (leakedAt), not verified; global operator new/delete counters see only allocations made through operator new (Eigen's aligned_malloc is handmade_aligned_malloc->malloc and is checked by matching frees only in the ASan builds of other properties)",
     technique="Lean 4 proof (omega, decide) on source-translated guards + exhaustive enumeration on the implementation",
     design="§5 C12", harnesses=[{'name': 'c12', 'sanitize': False, 'opt': '-O0'}])
@@ -14,11 +14,11 @@ def run(tier, seed, replay=None):
         out = os.path.join(R.work, 'replay'); rc, hlog = run_harness(exe, out, seed, tier, ['--replay', replay])
         R.failures += load_oracle(os.path.join(out, 'oracle.jsonl'))
         return R.finish()
-    standard_prove(R, 'C12', ['Guard', 'Sort'])
+    standard_prove(R, 'C12', ['Guard', 'Sort', 'MatOpGuard'])
     r = standard_corr(R, 'c12', 'guards', sanitize=False, opt='-O0')
     if r:
         R.cov['distinct_nontrivial'] = distinct_count(os.path.join(r['out'], 'requests.txt'))
-        R.cov['rule'] = 'exhaustive enumeration exactly as the property quantifies (the same in both tiers): 14 solver configurations x n in 1..12 x (nev,ncv) in [-2,n+3]^2 (+ 3 matrix shapes for the SVD), 16 wrapper constructors x 12 non-square shapes, 5 sigma values x 3 modes, zero/tiny start vectors, 9 rules x {selection, sorting} x {Sym, Gen}; model requests: herm/gen/jd guard and sigma guard for every enumerated argument tuple'
+        R.cov['rule'] = 'exhaustive enumeration exactly as the property quantifies (the same in both tiers): 14 solver configurations x n in 1..12 x (nev,ncv) in [-2,n+3]^2 (+ 3 matrix shapes for the SVD), 41 single-matrix wrapper instantiations (15 classes) x 36 shapes (rows, cols in 0..5) + 8 SymShiftInvert instantiations (4 dense/sparse pairings) x 1296 shape pairs (A and B independent), 5 generalized-solver modes x 36 operator-size pairs (1..6)^2 x (nev,ncv) in [0,max+1]^2, GenEigsSolver over dense/sparse non-square operators (30 shapes), 5 sigma values x 3 modes, zero/tiny start vectors, 9 rules x {selection, sorting} x {Sym, Gen}; model requests: herm/gen/jd guard, sigma guard, wrapper guard (wrap1/wrap2) and generalized-solver guard (geigs_ctor) for every enumerated argument tuple'
         R.cov['exhaustive'] = True
         R.cov['evaluations'] = sum(v for k, v in r['stats'].get('counters', {}).items())
     return R.finish()
